@@ -30,6 +30,13 @@ Fixpoint link_params (types : list (string * xptype)) (ps : list xparam) (acc : 
       end
   end.
 
+(* container_lookup[name] = container on a dict: an existing key keeps its place and gets the new value, a new key goes last *)
+Fixpoint upsert {A} (l : list (string * A)) (n : string) (v : A) : list (string * A) :=
+  match l with
+  | [] => [(n, v)]
+  | (k, w) :: t => if String.eqb k n then (k, v) :: t else (k, w) :: upsert t n v
+  end.
+
 (* a linked container: entry references resolved to names known to exist *)
 Record lcontainer := { lk : xcontainer; lk_inheritors : list string }.
 
@@ -50,7 +57,7 @@ Fixpoint from_xml (fuel : nat) (d : xdoc) (params : list (string * xparam)) (c :
                | Some b =>
                    be <- get_container_element d b ;;
                    if mem b (map fst lookup) then Ok lookup
-                   else l <- from_xml f d params be lookup ;; Ok (l ++ [(xk_name be, be)])
+                   else l <- from_xml f d params be lookup ;; Ok (upsert l (xk_name be) be)
                end ;;
     (fix entries (es : list xentry) (lookup : list (string * xcontainer)) : res (list (string * xcontainer)) :=
        match es with
@@ -58,7 +65,7 @@ Fixpoint from_xml (fuel : nat) (d : xdoc) (params : list (string * xparam)) (c :
        | XEP n :: t => match assoc params n with Some _ => entries t lookup | None => Err EKey end
        | XEC n :: t =>
            if mem n (map fst lookup) then entries t lookup
-           else ne <- get_container_element d n ;; l <- from_xml f d params ne lookup ;; entries t (l ++ [(xk_name ne, ne)])
+           else ne <- get_container_element d n ;; l <- from_xml f d params ne lookup ;; entries t (upsert l (xk_name ne) ne)
        end) (xk_entries c) lookup1
   end.
 
